@@ -365,6 +365,35 @@ def simple_pairs_outside_ascii(ctx):
     ctx.count('non_ascii_pair_checks', n)
 
 
+def caseless_text_templates(ctx):
+    """Patterns that contain no cased character themselves but whose bracket ranges span letters of one case: in a case-insensitive
+    mode the accepted set is still closed under ASCII case of the name."""
+    pats = ['[0-`]', '[[-~]', '[!0-`]', '[@-Z]?', '*[^-z]', '[0-`][0-`]', '@([0-`]|1)', '[[:upper:]]', '[![:lower:]]1', '?[5-_]', '[\\x41-\\x5a]']
+    names = ['q', 'Q', 'a', 'A', 'z', 'Z', '5', '_', 'qq', 'Qq', 'q1', 'Q1', '1q', '1Q', 'aZ']
+    n = 0
+    for pat in pats:
+        for mod in (F, G):
+            for extra in (('IGNORECASE',), ('FORCEWIN',), ('IGNORECASE', 'FORCEUNIX'), ('IGNORECASE', 'DOTMATCH')):
+                flags = flags_of(('EXTMATCH',) + extra + (('RAWCHARS',) if '\\x' in pat else ()))
+                try:
+                    m = mod.compile(pat, flags=flags)
+                    rx = [re.compile(x) for x in mod.translate(pat, flags=flags)[0]]
+                    for nm in names:
+                        a, b = m.match(nm), m.match(nm.swapcase())
+                        ta, tb = any(r.fullmatch(nm) for r in rx), any(r.fullmatch(nm.swapcase()) for r in rx)
+                        n += 1
+                        if a is not b or ta is not tb or a is not ta:
+                            ctx.disagree('case-insensitive mode: a pattern without cased text answers differently for the two cases of a name|'
+                                         + ('glob' if mod is G else 'fnmatch'),
+                                         {'mode': 'caseless-text', 'pattern': pat, 'flags': ['EXTMATCH'] + list(extra), 'name': nm, 'got': a, 'swapped_got': b,
+                                          'via_translate': [ta, tb]})
+                            break
+                except Exception as e:  # noqa: BLE001
+                    ctx.disagree(f'compile raised {type(e).__name__}', {'pattern': pat, 'mode': 'caseless-text'})
+    ctx.evals(n)
+    ctx.count('caseless_text_checks', n)
+
+
 def bracket_backslash_templates(ctx):
     """Windows mode, file-name and path mode: an escaped backslash written as a member of a bracket expression stands for the
     separator, so names that differ only in how they spell that separator get the same answer."""
@@ -397,6 +426,7 @@ def run(ctx):
     if ctx.shard == 0:
         bracket_backslash_templates(ctx)
         simple_pairs_outside_ascii(ctx)
+        caseless_text_templates(ctx)
     p = pool()
     idx = 0
     for n in (1, 2):
@@ -455,6 +485,9 @@ def run(ctx):
 
 
 def replay(ctx, w):
+    if w.get('mode') == 'caseless-text':
+        caseless_text_templates(ctx)
+        return ctx.violations or None
     if w.get('mode') == 'simple-pairs':
         simple_pairs_outside_ascii(ctx)
         return ctx.violations or None
